@@ -6,7 +6,9 @@ import time
 from . import common
 
 KNOWN_PATH = os.path.join(common.VERIF, 'known_findings.json')
-EVIDENCE_DIR = os.path.join(common.VERIF, 'evidence')
+# (tools that run the checks against a deliberately broken or instrumented tree point this elsewhere, so that the committed
+#  evidence always describes a run against /repo as it is)
+EVIDENCE_DIR = os.environ.get('RV_EVIDENCE_DIR') or os.path.join(common.VERIF, 'evidence')
 REPLAY_DIR = os.path.join(common.VERIF, 'replays')
 
 
